@@ -396,6 +396,8 @@ impl VarFile {
                     byte_8 = self.read_u64_le()?;
                     idx += 8 * 8;
                     read_8 = true;
+                    #[cfg(feature = "verif_hooks")]
+                    crate::verif_hooks::note("bitmap_read8");
                 }
                 if read_8 {
                     self.seek_back_size(NodePieceSize::new(std::mem::size_of_val(&byte_8) as u32))?;
